@@ -143,6 +143,13 @@ func (c *Ctx) whoMayCall(rule string, target *ssa.Function, what string, allowed
 	}
 	refs := c.P.refsTo(target)
 	names := refNames(refs)
+	// a private helper that runs only on behalf of an allowed function counts as that function
+	// (the rules that examine the call sites look into such helpers too: deepSites/deepInstrs)
+	for _, r := range refs {
+		if nm := shortName(declaredParent(r.In)); len(subset([]string{nm}, allowed)) > 0 && r.Kind == "call" && c.P.ownedByAny(r.In, allowed) {
+			allowed = append(allowed, nm)
+		}
+	}
 	extra := subset(names, allowed)
 	c.Stat("call_sites", len(refs))
 	if len(extra) > 0 {
@@ -271,10 +278,130 @@ func funcOfValue(v ssa.Value) *ssa.Function {
 			v = x.X
 		case *ssa.MakeInterface:
 			v = x.X
+		case *ssa.Call:
+			// a constructor of the module that returns one function literal: `inView(view)` -> its closure
+			if cl := closureReturnedBy(x); cl != nil {
+				return cl
+			}
+			return nil
+		case *ssa.UnOp:
+			// a local variable holding the function (`matches := inView(view)`)
+			if a, ok := x.X.(*ssa.Alloc); ok && x.Op == token.MUL {
+				var vals []ssa.Value
+				storedInto(a, func(sv ssa.Value) bool { vals = append(vals, sv); return false })
+				if len(vals) == 1 {
+					v = vals[0]
+					continue
+				}
+			}
+			return nil
 		default:
 			return nil
 		}
 	}
+}
+
+// closureReturnedBy: call is a static call of a module function all of whose returns deliver a
+// closure of one and the same function literal (a predicate constructor); returns that literal.
+func closureReturnedBy(call *ssa.Call) *ssa.Function {
+	mc := makeClosureReturnedBy(call)
+	if mc == nil {
+		return nil
+	}
+	f, _ := mc.Fn.(*ssa.Function)
+	return f
+}
+
+func makeClosureReturnedBy(call *ssa.Call) *ssa.MakeClosure {
+	cal := call.Call.StaticCallee()
+	if cal == nil || cal.Blocks == nil || !inModule(funcPkgPath(cal)) || cal.Signature.Results().Len() != 1 {
+		return nil
+	}
+	var out *ssa.MakeClosure
+	for _, r := range returnsOf(cal) {
+		v := r.Results[0]
+		if ct, ok := v.(*ssa.ChangeType); ok {
+			v = ct.X
+		}
+		mc, ok := v.(*ssa.MakeClosure)
+		if !ok || (out != nil && out.Fn != mc.Fn) {
+			return nil
+		}
+		out = mc
+	}
+	return out
+}
+
+// resolveClosure finds the function literal behind a function value used in fl.Fn and the keys,
+// in fl.Fn's terms, of what its free variables are bound to ("name" for a by-value capture,
+// "*name" for the content of a captured variable). It looks through local variables and through
+// constructors of the module that return one literal (whose own parameters are replaced by the
+// arguments of the constructor call).
+func resolveClosure(fl *Flow, v ssa.Value) (*ssa.Function, map[string]string) {
+	for i := 0; i < 4; i++ {
+		switch x := v.(type) {
+		case *ssa.ChangeType:
+			v = x.X
+			continue
+		case *ssa.UnOp:
+			if a, ok := x.X.(*ssa.Alloc); ok && x.Op == token.MUL {
+				var vals []ssa.Value
+				storedInto(a, func(sv ssa.Value) bool { vals = append(vals, sv); return false })
+				if len(vals) == 1 {
+					v = vals[0]
+					continue
+				}
+			}
+			return nil, nil
+		case *ssa.MakeClosure:
+			cl, _ := x.Fn.(*ssa.Function)
+			if cl == nil {
+				return nil, nil
+			}
+			env := map[string]string{}
+			for j, fv := range cl.FreeVars {
+				if j >= len(x.Bindings) {
+					continue
+				}
+				k := fl.K.Key(x.Bindings[j])
+				env[fv.Name()] = k
+				if strings.HasPrefix(k, "&[") && strings.HasSuffix(k, "]") {
+					env["*"+fv.Name()] = k[2 : len(k)-1]
+				}
+			}
+			return cl, env
+		case *ssa.Call:
+			mc := makeClosureReturnedBy(x)
+			if mc == nil {
+				return nil, nil
+			}
+			cons := x.Call.StaticCallee()
+			cfl := NewFlow(fl.P, cons)
+			cl, env := resolveClosure(cfl, mc)
+			if cl == nil {
+				return nil, nil
+			}
+			args := make([]string, len(x.Call.Args))
+			for j, a := range x.Call.Args {
+				args[j] = fl.K.Key(a)
+			}
+			for name, k := range env {
+				env[name] = paramRe.ReplaceAllStringFunc(k, func(m string) string {
+					n := 0
+					for _, ch := range m[1:] {
+						n = n*10 + int(ch-'0')
+					}
+					if n < len(args) {
+						return args[n]
+					}
+					return m
+				})
+			}
+			return cl, env
+		}
+		break
+	}
+	return nil, nil
 }
 
 // reachAvoid searches the CFG at instruction granularity, starting just after `from`,
@@ -566,6 +693,77 @@ func (p *Prog) withOwnedHelpers(allowed []string, cands []*ssa.Function) []strin
 				changed = true
 			}
 		}
+	}
+	return out
+}
+
+// HandlerBody is the function that holds the logic of a registered event handler, and the key of
+// the event inside it. Register(el, func(m T) { ... }) registers the logic itself (event = p0);
+// Register(el, s.onT) registers a bound method (event = p1); a one-line closure that forwards its
+// parameter to a function of its package registers that function.
+type HandlerBody struct {
+	Fn    *ssa.Function
+	EvKey string
+	Reg   *ssa.Function // the value given to Register
+}
+
+func (p *Prog) registeredHandlerBodies(T types.Type) []HandlerBody {
+	var out []HandlerBody
+	for _, h := range p.registeredHandlers(T) {
+		hb := HandlerBody{Fn: h, EvKey: "p0", Reg: h}
+		// what does h forward to?
+		forwardTo := func(f *ssa.Function, evParam int) (*ssa.Function, int) {
+			if f.Blocks == nil {
+				return nil, 0
+			}
+			var call ssa.CallInstruction
+			n := 0
+			eachInstr(f, func(in ssa.Instruction) {
+				switch x := in.(type) {
+				case ssa.CallInstruction:
+					n++
+					call = x
+				case *ssa.Store, *ssa.If, *ssa.MapUpdate, *ssa.Send:
+					n += 10
+				}
+			})
+			if n != 1 || call == nil || len(f.Blocks) != 1 {
+				return nil, 0
+			}
+			cal := call.Common().StaticCallee()
+			if cal == nil || cal.Blocks == nil || funcPkgPath(cal) != funcPkgPath(declaredParent(f)) && f.Synthetic == "" {
+				return nil, 0
+			}
+			k := NewKeyer(p, f)
+			want := "p" + itoa(evParam)
+			for i, a := range call.Common().Args {
+				ak := k.Key(a)
+				if ak == want || ak == "*&["+want+"]" {
+					return cal, i
+				}
+			}
+			return nil, 0
+		}
+		ev := 0
+		if strings.Contains(h.Synthetic, "bound method wrapper") {
+			// the wrapper's parameters are the method's parameters without the receiver
+			if cal, i := forwardTo(h, 0); cal != nil {
+				hb.Fn, hb.EvKey = cal, "p"+itoa(i)
+				ev = i
+			}
+		}
+		for depth := 0; depth < 2; depth++ {
+			cal, i := forwardTo(hb.Fn, ev)
+			if cal == nil || cal == hb.Fn {
+				break
+			}
+			// forward only when the event parameter has the event's type there too
+			if i >= len(cal.Params) || !types.Identical(cal.Params[i].Type(), T) {
+				break
+			}
+			hb.Fn, hb.EvKey, ev = cal, "p"+itoa(i), i
+		}
+		out = append(out, hb)
 	}
 	return out
 }
